@@ -149,6 +149,17 @@ def _gen_term(rng, depth, named_vars):
     return ["struct", 0, rng.choice(_FUNCTORS), [{"term": _gen_term(rng, depth - 1, named_vars)} for _ in range(n)]]
 
 
+def _variant(rng, t, named_vars):
+    """A copy of term description t with one position replaced (often the last argument)."""
+    import copy
+    t = copy.deepcopy(t)
+    if t[0] == "struct" and t[3] and rng.random() < 0.85:
+        i = len(t[3]) - 1 if rng.random() < 0.6 else rng.randrange(len(t[3]))
+        t[3][i] = {"term": _variant(rng, t[3][i]["term"], named_vars)}
+        return t
+    return _gen_term(rng, 1, named_vars)
+
+
 def _mk_list(items):
     t = ["struct", 0, "[]", []]
     for it in reversed(items):
@@ -161,7 +172,9 @@ def native_cases(qual, rng):
     for _ in range(1000000):
         nv = rng.random() < 0.8
         if name in ("struct_cmp",) or name.startswith("_builtin_struct_"):
-            yield dict(a=_gen_term(rng, 2, nv), b=_gen_term(rng, 2, nv))
+            a = _gen_term(rng, 2, nv)
+            # half of the pairs differ in exactly one position (so that equal prefixes are exercised)
+            yield dict(a=a, b=_variant(rng, a, nv) if rng.random() < 0.5 else _gen_term(rng, 2, nv))
         elif name == "_builtin_compare":
             yield dict(c=["var", "O"], a=_gen_term(rng, 2, nv), b=_gen_term(rng, 2, nv))
         elif name == "_builtin_sort":
